@@ -54,7 +54,7 @@ fn simple_version(rng: &mut Rng) -> String {
 
 /// dewey pattern text and a list of interesting names for it
 pub fn dewey(rng: &mut Rng) -> (String, Vec<String>) {
-    let b = if rng.chance(1, 1500) { format!("verylongbase-{}", "y".repeat(*rng.pick(&[65522usize, 65523, 65524, 70000]))) } else { base(rng) };
+    let b = if rng.chance(1, 1000) { format!("verylongbase-{}", "y".repeat(*rng.pick(&[65522usize, 65523, 65524, 70000]))) } else { base(rng) };
     let v1 = simple_version(rng);
     let v2 = simple_version(rng);
     let shape = if rng.chance(1, 200) { 10 } else { rng.below(10) };
@@ -68,8 +68,9 @@ pub fn dewey(rng: &mut Rng) -> (String, Vec<String>) {
         _ => format!("{}{}{}{}", b, rng.pick(&OPS), rng.pick(&OPS), v1),
     };
     let mut names = vec![];
-    for _ in 0..rng.range(3, 8) {
-        let nb = if rng.chance(2, 3) { b.clone() } else { near_base(rng, &b) };
+    // (a base of 65 000 bytes: two names, so that the record stays within the quick tier's size budget)
+    for _ in 0..if b.len() > 60000 { 2 } else { rng.range(3, 8) } {
+        let nb = if rng.chance(2, 3) || b.len() > 60000 { b.clone() } else { near_base(rng, &b) };
         let nv = match rng.below(5) {
             0 => v1.clone(),
             1 => v2.clone(),
